@@ -550,7 +550,7 @@ def c17(tier):
       PLL.update({"bboxesFromGeoPolygon.0": 3, "bboxFromGeoLoop.0": 5, "harness.0": 4, "harness.1": 4, "gridDisk.0": 8})
       j = al("polylegacy_h%d" % nh, ["-DPOLYLEGACY", "-DNH=%d" % nh, "-DNHEX=2"], unwind=5, us=PLL, stubs=PSL, est=100, mem="M", timeout=2400, bound="legacy polygonToCells: triangle + %d hole(s), size estimate 2, edge tracer seeds nothing (allocation prologue, tracer errors, epilogue), every failure schedule" % nh)
       js += with_witness(j) if nh == 0 else [j]
-      # polylegacy with a seed cell and arbitrary rings (flood fill of a 2-slot table) was probed: 27-30 GB, no verdict - not registered
+      # polylegacy with a seed cell and arbitrary rings (flood fill over a 1- or 2-slot table) was probed three times: 18-30 GB, no verdict - not registered
       js += with_witness(al("polymax_h%d" % nh, ["-DPOLYMAX", "-DNH=%d" % nh], unwind=5, us=PL, stubs=PS, est=400, mem="L", timeout=2400, tier="thorough", bound="triangle + <=1 hole, res <= 2 (incl. negative), any flags, <= 3 iterator steps"))
     return js
 
